@@ -100,6 +100,21 @@ pub fn run_fault_case(c: &FaultCase, keep_trace: bool) -> FaultOut {
 			}
 			// usability probes (arena leaves only)
 			ctl.release_foreign();
+			// a lock whose own release panicked is still recorded as held (the fault replaced the operation);
+			// whether or not a real raw lock had released before panicking, the lock must be dead afterwards:
+			// clear the stale hold so that the probes below can ask
+			{
+				let mut g = ctl.exec.lock();
+				for (_, o) in &fired {
+					if o.act == Act::Unlock {
+						let l = &mut g.locks[o.lock as usize];
+						if l.excl == Some(0) {
+							l.excl = None;
+						}
+						l.shared.retain(|t| *t != 0);
+					}
+				}
+			}
 			for l in &t.leaves {
 				let Some(lock) = leaf_lock(w, *l) else { continue };
 				let faulted_here = fired.iter().any(|(_, o)| o.lock == *l);
@@ -114,6 +129,21 @@ pub fn run_fault_case(c: &FaultCase, keep_trace: bool) -> FaultOut {
 							if r.is_ok() {
 								unsafe { lock.raw_unlock_write() };
 								rt::violation("C12", format!("faulted-lock-blocking-usable|{}|fault-on-{}", rt::what_key(&w_), opk), format!("L{} is killed for try but a blocking acquisition succeeded", l));
+							}
+							// ... and the shared entry points refuse as well
+							rt::begin_call(rt::CallKind::None, false, "probe-read".into());
+							let ok = unsafe { lock.raw_try_read() };
+							if ok {
+								unsafe { lock.raw_unlock_read() };
+							}
+							rt::end_call();
+							if ok {
+								rt::violation("C12", format!("faulted-lock-read-usable|{}|fault-on-{}", rt::what_key(&w_), opk), format!("L{} is killed for exclusive try but a shared try acquisition succeeded", l));
+							}
+							let r = catch_unwind(AssertUnwindSafe(|| unsafe { lock.raw_read() }));
+							if r.is_ok() {
+								unsafe { lock.raw_unlock_read() };
+								rt::violation("C12", format!("faulted-lock-blocking-read-usable|{}|fault-on-{}", rt::what_key(&w_), opk), format!("L{} is killed for try but a blocking shared acquisition succeeded", l));
 							}
 						}
 						if !faulted_here && killed && one_shot {
@@ -178,6 +208,16 @@ pub fn c12_specs(thorough: bool) -> Vec<Spec> {
 	out.push(Spec::Native(Native::NewOW(Kind::Retry, 0)));
 	out.push(Spec::Coll(Kind::Boxed, vec![Spec::OW(0), Spec::R(0)]));
 	out.push(Spec::Coll(Kind::Retry, vec![Spec::R(0), Spec::OW(0)]));
+	// native container shapes: tuples (3 members, each collection kind; 5 for the sorted kind), `&mut` members
+	for which in 0..4u8 {
+		out.push(Spec::Native(Native::TupN(which, 3)));
+		out.push(Spec::Native(Native::MutRefs(which, 2)));
+	}
+	if thorough {
+		out.push(Spec::Native(Native::TupN(0, 5)));
+		out.push(Spec::Native(Native::Arr3(Kind::Retry, [2, 0, 1])));
+		out.push(Spec::Native(Native::Slice(Kind::Ref, vec![1, 0])));
+	}
 	out
 }
 
